@@ -32,7 +32,7 @@ REAL = ["pennylane.ftqc.convert_to_mbqc_gateset / convert_to_mbqc_formalism / Qu
         "default.qubit one-shot execution of the converted tape", "pennylane.ftqc.pauli_tracker.commute_clifford_op (exhaustive side check)"]
 STUBBED = ["numpy Generator.binomial / .choice -> simkit hub forces every measurement outcome and the terminal draw"]
 NOT_INJECTED = ["clock/network/disk faults: none exist on this path",
-                "offline byproduct correction (get_byproduct_corrections needs hand-written measurement patterns; not driven)",
+                "offline byproduct correction is driven on forced histories against an independent frame propagation, not by executing an uncorrected pattern on a device",
                 "3 logical wires (16 physical): affordable only in the thorough tier budget, not generated"]
 ASSUMPTIONS = [
     "the position of a wire in the offered basis-state distribution is its position in QuantumScript.map_to_standard_wires() (public, documented)",
